@@ -1,5 +1,6 @@
 import BadgerModel.Bloom
 import BadgerProofs.Lemmas.AuxBits
+import BadgerProofs.Lemmas.Bytes
 /-!
 # C19 — bloom filters never hide a key that is present (`y/bloom.go`, `table.DoesNotHave`).
 
@@ -30,8 +31,7 @@ theorem getD_setBit (f : Bytes) (p q : Nat) :
   · subst h1
     by_cases h2 : p / 8 < f.length
     · simp [h2]
-    · have : f[p / 8]? = none := by simp; omega
-      simp [h2, this]
+    · simp [h2]
   · simp [h1]
 
 theorem testBit_setBit_self (f : Bytes) (p : Nat) (h : p / 8 < f.length) :
@@ -88,13 +88,13 @@ theorem mayLoop_addKeyLoop (nb d j h : Nat) (f : Bytes) (hnb : 0 < nb) (hlen : n
   induction j generalizing h f with
   | zero => rfl
   | succ j ih =>
-    simp only [addKeyLoop, mayLoop]
     have hp : h % nb / 8 < f.length := by
       have := Nat.mod_lt h hnb
       omega
     have hset : testBit (addKeyLoop nb d j ((h + d) % u32) (setBit f (h % nb))) (h % nb) = true :=
       addKeyLoop_covers _ _ _ _ _ _ (testBit_setBit_self f _ hp)
-    rw [if_pos hset]
+    show mayLoop (addKeyLoop nb d j ((h + d) % u32) (setBit f (h % nb))) nb d (j + 1) h = true
+    rw [mayLoop, if_pos hset]
     exact ih _ _ (by simpa using hlen)
 
 /-- The outer loop of `appendFilter`. -/
@@ -254,8 +254,8 @@ theorem C19_doesNotHave_userKey (entries : List (Bytes × Nat)) (bpk : Int) (f :
   have h := C19_doesNotHave_sound _ bpk f (keyWithTs k ts) hf
     (List.mem_map.mpr ⟨(k, ts), hmem, rfl⟩)
   have hp : parseKey (keyWithTs k ts) = k := by
-    unfold parseKey keyWithTs
-    simp
+    simp [parseKey, keyWithTs]
+    omega
   rwa [hp] at h
 
 /-! ## non-vacuity -/
@@ -268,7 +268,7 @@ example : ∃ f, appendFilter [1, 0xdeadbeef, 0xffffffff] 10 = some f ∧
 -- the side condition of `appendFilter_isSome` holds for every realistic size
 example : bloomNBytes 1000 10 * 8 % u32 ≠ 0 := by decide
 -- negative bitsPerKey is clamped: k = 1, 64 bits
-example : appendFilter [7] (-5) = some [0, 0x40, 0, 0, 0, 0x80, 0, 0, 1] := by decide
+example : appendFilter [7] (-5) = some [0x80, 0, 0, 0, 0, 0, 0, 0, 1] := by decide
 -- `Hash` on the four tail lengths
 example : hash [] = 0xbc9f1d34 := by decide
 example : hash [0x61] ≠ hash [0x62] := by decide
